@@ -76,6 +76,7 @@ def run(program, res, tier):
     r3 = Relabel(res, {"*": "C02-S3"})
     c10._s3(program, model, r3)
     c09._s1(program, r3)
+    c09.sql_counts_rule(program, r3, rule="C02-S3", dialects=(("PostgreSQL", "PostgreSQLModel"),))
     res.rule("C02-S4", "comparison operators agree with Pandas on missing operands")
     from . import c01
     c01.comparison_null_rule(program, res, "PostgreSQL", "PostgreSQLModel", rule="C02-S4")
